@@ -613,13 +613,13 @@ def ndarray_oracle(spec):
 
 
 SUBS = [
-    Sub('tree', tree_case, tree_oracle, {'quick': 300, 'thorough': 6000}, {'quick': 8, 'thorough': 16},
+    Sub('tree', tree_case, tree_oracle, {'quick': 700, 'thorough': 6000}, {'quick': 8, 'thorough': 16},
         doc='expression trees, every node vs RefObs.combine with analytic gradients'),
-    Sub('derived', derived_case, derived_oracle, {'quick': 120, 'thorough': 2500}, {'quick': 3, 'thorough': 8},
+    Sub('derived', derived_case, derived_oracle, {'quick': 300, 'thorough': 2500}, {'quick': 3, 'thorough': 8},
         doc='derived_observable: autograd / num_grad / man_grad / array_mode'),
-    Sub('split', split_case, split_oracle, {'quick': 150, 'thorough': 3000}, {'quick': 2, 'thorough': 8},
+    Sub('split', split_case, split_oracle, {'quick': 350, 'thorough': 3000}, {'quick': 2, 'thorough': 8},
         doc='one call vs binary bracketing under the shared-replica / shared-configuration precondition'),
-    Sub('cobs', cobs_case, cobs_oracle, {'quick': 200, 'thorough': 4000}, {'quick': 2, 'thorough': 8},
+    Sub('cobs', cobs_case, cobs_oracle, {'quick': 450, 'thorough': 4000}, {'quick': 2, 'thorough': 8},
         doc='complex observables against real-pair formulas'),
     Sub('ndarray', ndarray_case, ndarray_oracle, {'quick': 100, 'thorough': 1500}, {'quick': 1, 'thorough': 2},
         doc='Obs (op) ndarray element-wise'),
